@@ -405,6 +405,43 @@ func runC14(c *Ctx) {
 		r.Add(core.Obligation{Rule: "router-fields", Key: "router-fields every valid advertisement reaches the table", Func: core.FuncName(pp), Pos: c.P.Pos(core.PosOf(site.(ssa.Instruction))), Status: us,
 			Basis: "every path from the advertisement's IsValid to a nil return passes findOrCreateRouter", Detail: det})
 	}
+	// a parity test decides something: its operand is not a multiple of an even constant (x*8 % 2 is always 0, the test is
+	// dead and an RDNSS option with an even Length - one server and eight stray octets - is recorded where a reference
+	// decoder refuses it)
+	for _, fn := range c.P.LibFunctions() {
+		if fn.Pkg == nil || fn.Pkg.Pkg.Name() != "packet" || !strings.HasSuffix(c.P.Pos(fn.Pos()), "") {
+			continue
+		}
+		if !strings.Contains(c.P.Pos(fn.Pos()), "layer_icmp6_options.go") {
+			continue
+		}
+		kgp := core.NewKeyGen()
+		core.EachInstr(fn, func(i ssa.Instruction) {
+			bo, ok := i.(*ssa.BinOp)
+			if !ok || bo.Op != token.REM {
+				return
+			}
+			k, isK := bo.Y.(*ssa.Const)
+			if !isK || k.Value == nil || k.Int64() != 2 {
+				return
+			}
+			st := core.Proved
+			if mul, isMul := bo.X.(*ssa.BinOp); isMul && mul.Op == token.MUL {
+				for _, op := range []ssa.Value{mul.X, mul.Y} {
+					if kc, isC := op.(*ssa.Const); isC && kc.Value != nil && kc.Int64()%2 == 0 {
+						st = core.Violated
+					}
+				}
+			}
+			if shl, isShl := bo.X.(*ssa.BinOp); isShl && shl.Op == token.SHL {
+				if kc, isC := shl.Y.(*ssa.Const); isC && kc.Value != nil && kc.Int64() >= 1 {
+					st = core.Violated
+				}
+			}
+			r.Add(core.Obligation{Rule: "ndp-siblings", Key: strings.TrimSuffix(kgp.Key("ndp-siblings parity test is live in "+core.FuncName(fn)), "#0"), Func: core.FuncName(fn), Pos: c.P.Pos(core.PosOf(i)), Status: st,
+				Basis: "the operand of %2 is not a multiple of an even constant", Detail: "the parity test " + norm(bo) + " can never fail (its operand is a multiple of an even constant): the option length it was meant to validate is accepted whatever its parity"})
+		})
+	}
 	// the search list option is padded to a multiple of eight with zero octets, anything from none to seven of them. After
 	// a name, the decoder asks whether what is left is a single octet before it treats "fewer than two octets left" as a
 	// malformed label: otherwise a list whose names leave exactly one octet of padding is refused and the router is
